@@ -1327,6 +1327,40 @@ def _sorted_forward(spans):
 FEAT_COMP = str.maketrans("ACGT-", "TGCA-")
 
 
+def _spec_from_locations(out, rng, count):
+    """FeatureMap.from_locations with locations reaching beyond the parent: the part inside the parent is a span, the
+    overhang a lost span of its length; no coordinate outside the parent"""
+    from cogent3.core.location import FeatureMap
+
+    for _ in range(count):
+        pl = rng.randint(0, 12)
+        k = rng.randint(1, 3)
+        c = sorted(rng.randint(0, pl + 3) for _ in range(2 * k))
+        locs = [(c[2 * j], c[2 * j + 1]) for j in range(k)]
+        if any(a > pl for a, _ in locs):
+            continue
+        out["evaluations"] += 1
+        inp = dict(locations=locs, pl=pl)
+        try:
+            m = FeatureMap.from_locations(locations=locs, parent_length=pl)
+        except CATCH as e:
+            add_failure(out, "spec", "from_locations raised", inp, "map", type(e).__name__, sig="from_locations:raise")
+            continue
+        want = []
+        for a, b in locs:
+            want += list(range(a, min(b, pl))) + [None] * max(0, b - pl)
+        got = _cover_real(m)
+        beyond = any(b > pl for _, b in locs)
+        if got != want:
+            add_failure(out, "spec", "from_locations does not cover the locations (overhang as lost span)", inp, want, got,
+                        sig="from_locations:cover:" + ("beyond-parent" if beyond else "inside"))
+        elif any((not sp.lost) and not (0 <= sp.start <= sp.end <= pl) for sp in m.spans):
+            add_failure(out, "spec", "from_locations yields coordinates outside the parent", inp, pl, _fmd(m),
+                        sig="from_locations:bounds")
+        else:
+            bump(out, "from_locations", "beyond-parent" if beyond else "inside")
+
+
 def _check_make_feature_case(out, par, spans, strand, a, b):
     import cogent3
 
@@ -1534,6 +1568,7 @@ def spec_check(ctx, budget):
                            "joined_segments is not the map of the joined slices", "joined_segments", dict(s=s, coords=cs))
     _spec_fmap(out, rng, 1500 * budget)
     _spec_make_feature(out, rng, 60 * budget)
+    _spec_from_locations(out, rng, 300 * budget)
     return out
 
 
